@@ -45,5 +45,60 @@ func properties() map[string]Property {
 		Assumes: []string{floatAssume, heapAssume, solverAssume, "probe points range over the integer lattice (a subset of the plane)"},
 		Jobs:    c01}
 
+	// ---- C15 ------------------------------------------------------------
+	lemma := Job{Harness: "H_C14_collinear", Tier: "quick", Merge: []string{"isCollinear"}, Sites: []string{"triSign1"},
+		Covers: []string{"C14.collinear.reached"},
+		Bounds: "lemma for the isCollinear summary: 3 points, coordinates symbolic in [-2^29, 2^29], real isCollinear/productsAreEqual/multiplyUInt64/triSign in merge mode"}
+	c15 := []Job{lemma}
+	for n := int64(3); n <= 5; n++ {
+		j := Job{Harness: "H_C15_closed", Args: []int64{n}, Tier: "quick", Summaries: []string{"isCollinear"}, Sites: []string{"triSign1"},
+			Excuses: []string{"C15.spike"}, Covers: []string{"C15.closed.done"}, TimeoutMs: 60000,
+			Bounds: "closed path of n fully symbolic points, coordinates in [-2^29, 2^29]; isCollinear replaced by its exact-cross-product summary (lemma job in the same check)"}
+		if n == 3 {
+			// live check of the triSign known finding with the real predicate (merge mode)
+			j.Merge = []string{"isCollinear"}
+		} else {
+			j.NoLive = true
+		}
+		c15 = append(c15, j)
+	}
+	for n := int64(2); n <= 5; n++ {
+		c15 = append(c15, Job{Harness: "H_C15_open", Args: []int64{n}, Tier: "quick", Summaries: []string{"isCollinear"}, NoLive: true,
+			Covers: []string{"C15.open.done"}, TimeoutMs: 60000,
+			Bounds: "open path of n fully symbolic points, coordinates in [-2^29, 2^29]; sub-sequence, end points kept, input unchanged"})
+	}
+	c15 = append(c15, Job{Harness: "H_C15_spike6", Tier: "quick", Summaries: []string{"isCollinear"}, Excuses: []string{"C15.spike"}, KnownOnly: true,
+		Bounds: "closed 6-gon A,B,A,C,D,E (third vertex repeats the first), all coordinates symbolic: the smallest family showing known finding C15.spike"})
+	ps["C15"] = Property{ID: "C15", Level: "model_checking",
+		Explain: "TrimCollinear64 executed symbolically on fully symbolic paths; every loop path explored; oracles in exact integer arithmetic (sub-sequence embedding, shoelace identity, collinearity of consecutive triples, idempotence)",
+		Assumes: []string{solverAssume, "closed paths with more than 5 vertices are outside the bound except for the spike family"},
+		Jobs:    c15}
+
+	// ---- C16 ------------------------------------------------------------
+	c16 := []Job{{Harness: "H_C16_kernel", Tier: "quick", Covers: []string{"C16.kernel.reached"},
+		Bounds: "real PerpendicDistFromLineSqr64 on 3 fully symbolic points in [-2^29, 2^29]: non-negative, zero iff degenerate or exactly collinear, translation invariant, symmetric inputs"}}
+	for _, a := range [][]int64{{3, 1}, {4, 1}, {4, 0}, {5, 1}, {5, 0}, {6, 1}, {6, 0}, {7, 1}} {
+		tier := "quick"
+		if a[0] >= 6 {
+			tier = "thorough"
+		}
+		c16 = append(c16, Job{Harness: "H_C16_simplify", Args: a, Tier: tier, Summaries: []string{"PerpendicDistFromLineSqr64"}, NoLive: true,
+			Covers: []string{"C16.simplify.done"},
+			Bounds: "SimplifyPath64 on n fully symbolic points (args: n, closed), epsilon symbolic in [0, 2^20]; the kernel is an arbitrary non-negative function (so the bookkeeping is decided for every kernel, the real one included)"})
+	}
+	for _, a := range [][]int64{{4, 1}, {4, 0}, {5, 1}} {
+		tier := "quick"
+		if a[0] >= 5 {
+			tier = "thorough"
+		}
+		c16 = append(c16, Job{Harness: "H_C16_eps0", Args: a, Tier: tier, Summaries: []string{"PerpendicDistFromLineSqr64+zero"}, NoLive: true,
+			Covers: []string{"C16.eps0.done"}, TimeoutMs: 60000,
+			Bounds: "SimplifyPath64 with epsilon 0 on n fully symbolic points; kernel abstracted to 'zero iff exactly collinear' (proved for the real kernel by H_C16_kernel); exact shoelace identity; translated run returns the translated result"})
+	}
+	ps["C16"] = Property{ID: "C16", Level: "model_checking",
+		Explain: "kernel decided on the real code for all coordinates; bookkeeping decided on the real SimplifyPath64 with the kernel abstracted (sound for every kernel); epsilon-0 claims with the kernel's proved zero-set",
+		Assumes: []string{floatAssume, solverAssume, "SimplifyPathD and the Paths variants are covered by C07's plumbing equivalence, not here", "power-of-two scaling invariance is not decided (float model does not track exact scaling)"},
+		Jobs:    c16}
+
 	return ps
 }
